@@ -133,6 +133,15 @@ def exportBandsOld (bs : List DesignBand) : List DesignBand := if bs.length > 1 
 band of the SI section -/
 def reloadBands (si : DesignBand) (doc : List DesignBand) : List DesignBand := if doc = [] then [si] else doc
 
+/-- a Transceiver may state design bands like a ROADM; `Transceiver.to_json` writes them whenever given (same rule:
+`exportBands`). On reload a transceiver WITHOUT stated bands gets the bands of the amplifiers of its line
+(`set_per_degree_design_band`), here `fromAmps` -/
+def reloadBandsTrx (fromAmps : List DesignBand) (doc : List DesignBand) : List DesignBand :=
+  if doc = [] then fromAmps else doc
+
+/-- the transceiver export before the repair: no design bands at all (kept as a counter-model only) -/
+def exportBandsTrxOld (_ : List DesignBand) : List DesignBand := []
+
 /-- the design load (channel count) of a single-band OMS after reload, as `designChannels` counts it -/
 def reloadedChannels (nbRef : Option Int) (si : DesignBand) (doc : List DesignBand) : Int :=
   match reloadBands si doc with
